@@ -2867,6 +2867,8 @@ class DRoc(Output):
         F = data.num_inputs
         labels = data.get_legend()
         f_intervals = verif.util.get_intervals(self.bin_type, f_thresholds)
+        if "within" in self.bin_type:
+            verif.util.error("A single threshold cannot form a 'within' interval (use -b with an above or below type)")
         interval = verif.util.get_intervals(self.bin_type, [threshold])[0]
         for f in range(F):
             opts = self._get_plot_options(f)
@@ -3161,6 +3163,8 @@ class Performance(Output):
         threshold = self.thresholds[0]   # Observation threshold
         labels = data.get_legend()
         F = data.num_inputs
+        if "within" in self.bin_type:
+            verif.util.error("A single threshold cannot form a 'within' interval (use -b with an above or below type)")
         interval = verif.util.get_intervals(self.bin_type, [threshold])[0]
         num_max_points = 20
 
